@@ -135,6 +135,70 @@ func init() {
 		}
 		w.Line("/-- `lru.NewARC` calls in `mux.reload` (one fresh cache per generation) -/")
 		w.Line("def reloadNewARCCalls : Nat := %d", r.CountCalls(rd.Body, "lru.NewARC"))
+		// Extension mux: where does the new instance's cache come from? Every assignment to `<x>.cache`
+		// in reload (and a `cache:` member of a composite literal), the defining expression of an
+		// identifier on the right-hand side, and every mention of a `.cache` selector that is not the
+		// assignment target (e.g. `oldInst.cache`).
+		var cacheRHS, cacheReads []string
+		defs := map[string]string{}
+		ast.Inspect(rd.Body, func(n ast.Node) bool {
+			if as, ok := n.(*ast.AssignStmt); ok {
+				for i, l := range as.Lhs {
+					if id, ok := l.(*ast.Ident); ok && len(as.Rhs) >= 1 {
+						k := i
+						if len(as.Rhs) == 1 {
+							k = 0
+						}
+						if _, seen := defs[id.Name]; !seen {
+							defs[id.Name] = r.Src(as.Rhs[k])
+						} else {
+							defs[id.Name] += " | " + r.Src(as.Rhs[k])
+						}
+					}
+				}
+			}
+			return true
+		})
+		// a local identifier stands for what it was defined as, transitively (robust against renaming
+		// it or building the cache before the instance literal)
+		resolve := func(e string) string {
+			for i := 0; i < 5; i++ {
+				d, ok := defs[e]
+				if !ok {
+					break
+				}
+				e = d
+			}
+			return e
+		}
+		targets := map[ast.Expr]bool{}
+		ast.Inspect(rd.Body, func(n ast.Node) bool {
+			switch x := n.(type) {
+			case *ast.AssignStmt:
+				for i, l := range x.Lhs {
+					if se, ok := l.(*ast.SelectorExpr); ok && se.Sel.Name == "cache" && i < len(x.Rhs) {
+						targets[se] = true
+						cacheRHS = append(cacheRHS, resolve(r.Src(x.Rhs[i])))
+					}
+				}
+			case *ast.KeyValueExpr:
+				if id, ok := x.Key.(*ast.Ident); ok && id.Name == "cache" {
+					cacheRHS = append(cacheRHS, resolve(r.Src(x.Value)))
+				}
+			}
+			return true
+		})
+		ast.Inspect(rd.Body, func(n ast.Node) bool {
+			if se, ok := n.(*ast.SelectorExpr); ok && se.Sel.Name == "cache" && !targets[se] {
+				cacheReads = append(cacheReads, r.Src(se))
+			}
+			return true
+		})
+		w.Line("/-- right-hand sides of the assignments to the new instance's `cache` in `mux.reload` (a local identifier is")
+		w.Line("replaced by its defining expression) -/")
+		w.Line("def reloadCacheSources : List String := %s", StrList(cacheRHS))
+		w.Line("/-- reads of a `.cache` field in `mux.reload` (e.g. the previous instance's) -/")
+		w.Line("def reloadCacheReads : List String := %s", StrList(cacheReads))
 		return nil
 	}})
 }
